@@ -101,6 +101,10 @@ impl PayloadWriter {
             // of the last metric, since the previous parts of the buffer are still valid and could be flushed.
             self.buf.truncate(self.last_offset());
 
+            // Truncating back to the end of the last committed payload also removed the length prefix placeholder
+            // of the payload we just discarded, so put it back for the next payload.
+            self.prepare_for_write();
+
             return false;
         }
 
@@ -336,7 +340,12 @@ impl PayloadWriter {
     /// The iterator will yield payloads in the order they were written, and the payloads will be cleared from the
     /// writer when the iterator is dropped.
     pub fn payloads(&mut self) -> Payloads<'_> {
-        Payloads { buf: &mut self.buf, start: 0, offsets: self.offsets.drain(..) }
+        Payloads {
+            buf: &mut self.buf,
+            start: 0,
+            offsets: self.offsets.drain(..),
+            with_length_prefix: self.with_length_prefix,
+        }
     }
 }
 
@@ -345,6 +354,7 @@ pub struct Payloads<'a> {
     buf: &'a mut Vec<u8>,
     start: usize,
     offsets: std::vec::Drain<'a, usize>,
+    with_length_prefix: bool,
 }
 
 impl<'a> Payloads<'a> {
@@ -369,6 +379,12 @@ impl<'a> Payloads<'a> {
 impl<'a> Drop for Payloads<'a> {
     fn drop(&mut self) {
         self.buf.clear();
+
+        // The buffer always starts with the length prefix placeholder of the next payload to be written, which we
+        // just cleared along with the consumed payloads.
+        if self.with_length_prefix {
+            self.buf.extend_from_slice(&[0, 0, 0, 0]);
+        }
     }
 }
 
